@@ -816,9 +816,13 @@ def translate(repo):
     outside the subset is replaced by a stand-in about which no refinement theorem holds"""
     tree = ast.parse(open(os.path.join(repo, "pyemv", "tlv.py")).read())
     import pynorm
-    tree = pynorm.normalise_light(tree)           # module constants, chained comparisons, conditional expressions
     failures = {}
     try:
+        try:
+            pynorm.check_package(repo); pynorm.check_bindings(tree)           # every name the translator reads by its spelling means what it says
+        except pynorm.Binding as e:
+            raise Unsupported(f"tlv: {e}")
+        tree = pynorm.normalise_light(tree)       # module constants, chained comparisons, conditional expressions
         fns = check_module(tree)
     except Unsupported as e:
         fns = None
